@@ -10,7 +10,36 @@ database and must be removed from the corpus by hand after the first adoption ru
 """
 import json, os, random, shutil, subprocess, sys
 sys.path.insert(0, os.path.dirname(os.path.dirname(os.path.abspath(__file__))))
+import glob, gzip
 PIN = "e481c06"
+
+
+def inconsistent(d):
+    """Independent check of a directory the pinned release wrote: does the index serialised in schema.json describe the
+    object files?  (The pinned release rounds 64-bit values through float64 when it reloads its index and keeps rejected
+    writes indexed - its defects F04 / F14 - so some of its own directories are not valid databases.)"""
+    def load(p):
+        return json.loads(gzip.open(p).read()) if p.endswith(".gz") else json.load(open(p))
+    bad = []
+    for c in glob.glob(d + "/db/*"):
+        s = json.load(open(c + "/schema.json"))
+        ids = s["index"]["object-ids"]
+        objs = {os.path.basename(f).split(".")[0]: load(f) for f in glob.glob(c + "/*") if os.path.basename(f) != "schema.json"}
+        if set(ids.values()) != set(objs):
+            bad.append(("ids",))
+        for fn, fi in s["index"]["fields"].items():
+            if fn == "T":
+                continue
+            for v, oid in fi["index"]:
+                o = objs.get(ids.get(str(oid)))
+                path = fn.split(".")
+                for k in (path[1:] if path[0] == "Emb" else path):
+                    o = o.get(k) if isinstance(o, dict) else None
+                if o is None and (fn.startswith("P.") or fn == "O"):
+                    continue                       # nil pointer / omitted zero value
+                if o != v:
+                    bad.append((fn, oid, v, o))
+    return bad
 wt = "/tmp/golden-pinned"
 subprocess.run(["git", "-C", "/repo", "worktree", "remove", "--force", wt], capture_output=True)
 subprocess.run(["git", "-C", "/repo", "worktree", "add", "-q", "--detach", wt, PIN], check=True)
@@ -28,7 +57,7 @@ try:
     k = 0
     for cache in (False, True):
         for asyn in (False, True):
-            for st in range(4):
+            for st in range(8):
                 storage = (k * 3 + st) % len(gen.STORAGE)
                 t = gen.random_test(uni, rng, k, nops=18, nslots=6, p_reopen=0.08, p_query=0.0, cfgs=[(cache, asyn)], pal=k % len(gen.PALETTES), max_chain=1)
                 t["cfg"] = gen.make_cfg(cache, asyn, storage)
@@ -51,8 +80,18 @@ try:
             continue
         json.dump(t, open(os.path.join(d, "test.json"), "w"))
         kept += 1
-    for bad in ("g13", "g15"):
-        shutil.rmtree(os.path.join(out, bad), ignore_errors=True)   # inconsistent as written by the pinned release (see above)
+    for t in tests:
+        d = os.path.join(out, t["id"])
+        if os.path.isdir(d):
+            bad = inconsistent(d)
+            # a call the pinned release answered with an unclassified error (its own reload failing on its own index, F04):
+            # the abstract state cannot be rebuilt from what it acknowledged
+            if not bad and any('"c":"other"' in l for l in open(os.path.join(d, "trace.ndjson")) if l.startswith('{"c"') or '"ev":"put"' in l or '"ev":"del"' in l or '"ev":"many"' in l):
+                bad = [("unclassified answer of the pinned release in the recorded history",)]
+            if bad:
+                print("dropped", t["id"], "index of the pinned release disagrees with its files:", bad[:2])
+                shutil.rmtree(d)
+                kept -= 1
     # directory names of collections whose type names stress the snake-case conversion, as the pinned release names them
     subprocess.run([binp, "names", "-out", os.path.join(out, "names.json"), "-work", w], check=True)
     print("golden corpus: %d directories kept of %d" % (kept, len(tests)))
